@@ -463,8 +463,9 @@ impl Mapping {
     pub(crate) fn try_from_yaml(m: serde_yaml::Mapping) -> Result<Self> {
         let mut new = Self::with_capacity(m.len());
         for (k, v) in m {
-            new.insert(Value::try_from_yaml(k)?, Value::try_from_yaml(v)?)
-                .unwrap();
+            // A YAML mapping can spell the same key more than once, e.g. `=foo` and `foo`, in
+            // which case the insertion can fail.
+            new.insert(Value::try_from_yaml(k)?, Value::try_from_yaml(v)?)?;
         }
         Ok(new)
     }
